@@ -48,6 +48,8 @@ pub struct Rec<'a> {
     /// one entry per serializer call: hash of (method, arguments); capacity reserved up front
     log: &'a RefCell<Vec<u64>>,
     fail_at: usize,
+    /// what `is_human_readable` answers (serde's default is true; compact formats answer false)
+    hr: bool,
 }
 impl<'a> Rec<'a> {
     fn hit(&self, what: fmt::Arguments) -> Result<(), SErr> {
@@ -79,6 +81,9 @@ impl<'a> Serializer for Rec<'a> {
     type SerializeMap = Self;
     type SerializeStruct = Self;
     type SerializeStructVariant = Self;
+    fn is_human_readable(&self) -> bool {
+        self.hr
+    }
     prim!(serialize_bool: bool, serialize_i8: i8, serialize_i16: i16, serialize_i32: i32, serialize_i64: i64, serialize_u8: u8,
           serialize_u16: u16, serialize_u32: u32, serialize_u64: u64, serialize_f32: f32, serialize_f64: f64, serialize_char: char,
           serialize_str: &str, serialize_bytes: &[u8]);
@@ -161,9 +166,13 @@ pub struct De<'a> {
     pos: &'a Cell<usize>,
     calls: &'a Cell<usize>,
     fail_at: usize,
+    hr: bool,
 }
 impl<'de, 'a, 'b> Deserializer<'de> for &'b mut De<'a> {
     type Error = DErr;
+    fn is_human_readable(&self) -> bool {
+        self.hr
+    }
     fn deserialize_any<V: Visitor<'de>>(self, v: V) -> Result<V::Value, DErr> {
         self.calls.set(self.calls.get() + 1);
         if self.calls.get() == self.fail_at {
@@ -283,12 +292,12 @@ fn live_blocks() -> usize {
 fn ser_case<T: Serialize + Clone + PartialEq + fmt::Debug>(name: &str, v: &T, out: &mut Vec<Value>) {
     // number of calls of the fault-free run
     let base = RefCell::new(Vec::with_capacity(4096));
-    let _ = v.serialize(Rec { log: &base, fail_at: 0 });
+    let _ = v.serialize(Rec { log: &base, fail_at: 0, hr: true });
     let ncalls = base.borrow().len();
-    for kind in ["arc", "arc_shared", "unique"] {
+    for (kind, hr) in [("arc", true), ("arc_shared", true), ("unique", true), ("arc", false), ("arc_shared", false), ("unique", false)] {
         for k in 0..=(ncalls + 1) {
             let lv = RefCell::new(Vec::with_capacity(4096));
-            let rv = v.serialize(Rec { log: &lv, fail_at: k });
+            let rv = v.serialize(Rec { log: &lv, fail_at: k, hr });
             alloc::reset();
             ev::LOG.clear();
             alloc::track(true);
@@ -302,7 +311,7 @@ fn ser_case<T: Serialize + Clone + PartialEq + fmt::Debug>(name: &str, v: &T, ou
                         let u = UniqueArc::new(v.clone());
                         live0 = live_blocks();
                         c0 = 1;
-                        rh = u.serialize(Rec { log: &lh, fail_at: k });
+                        rh = u.serialize(Rec { log: &lh, fail_at: k, hr });
                         live1 = live_blocks();
                         c1 = Arc::count(&u.shareable());
                     }
@@ -311,7 +320,7 @@ fn ser_case<T: Serialize + Clone + PartialEq + fmt::Debug>(name: &str, v: &T, ou
                         let other = if kind == "arc_shared" { Some(a.clone()) } else { None };
                         live0 = live_blocks();
                         c0 = Arc::count(&a);
-                        rh = a.serialize(Rec { log: &lh, fail_at: k });
+                        rh = a.serialize(Rec { log: &lh, fail_at: k, hr });
                         live1 = live_blocks();
                         c1 = Arc::count(&a);
                         drop(other);
@@ -322,7 +331,7 @@ fn ser_case<T: Serialize + Clone + PartialEq + fmt::Debug>(name: &str, v: &T, ou
             }
             let leaked = live_blocks();
             let same_calls = calls_h == *lv.borrow();
-            out.push(json!({"op": "ser", "payload": name, "kind": kind, "k": k, "ncalls": ncalls,
+            out.push(json!({"op": "ser", "payload": name, "kind": kind, "k": k, "ncalls": ncalls, "human_readable": hr as u8,
                             "same_calls": same_calls as u8, "same_result": (rh == rv) as u8,
                             "count_before": c0, "count_after": c1, "live_delta": live1 as i64 - live0 as i64, "leaked": leaked,
                             "detail": if same_calls && rh == rv { json!("-") } else { json!(format!("handle calls {:x?} result {:?}; value calls {:x?} result {:?}", calls_h, rh, *lv.borrow(), rv)) }}));
@@ -334,18 +343,18 @@ fn ser_case<T: Serialize + Clone + PartialEq + fmt::Debug>(name: &str, v: &T, ou
 
 fn de_case<T: for<'de> Deserialize<'de> + PartialEq + fmt::Debug>(name: &str, toks: &[Tok], out: &mut Vec<Value>) {
     let (p0, c0) = (Cell::new(0), Cell::new(0));
-    let _ = T::deserialize(&mut De { toks, pos: &p0, calls: &c0, fail_at: 0 });
+    let _ = T::deserialize(&mut De { toks, pos: &p0, calls: &c0, fail_at: 0, hr: true });
     let ncalls = c0.get();
     // also truncated inputs (short token streams)
     let mut inputs: Vec<(usize, usize)> = (0..=(ncalls + 1)).map(|k| (k, toks.len())).collect();
     for cut in 0..toks.len() {
         inputs.push((0, cut));
     }
-    for kind in ["arc", "unique"] {
+    for (kind, hr) in [("arc", true), ("unique", true), ("arc", false), ("unique", false)] {
         for (k, cut) in inputs.iter().cloned() {
             let t = &toks[..cut];
             let (p, c) = (Cell::new(0), Cell::new(0));
-            let rv = T::deserialize(&mut De { toks: t, pos: &p, calls: &c, fail_at: k });
+            let rv = T::deserialize(&mut De { toks: t, pos: &p, calls: &c, fail_at: k, hr });
             let calls_v = c.get();
             drop(rv.as_ref().ok());
             alloc::reset();
@@ -356,7 +365,7 @@ fn de_case<T: for<'de> Deserialize<'de> + PartialEq + fmt::Debug>(name: &str, to
             match kind {
                 "arc" => {
                     let before = live_blocks();
-                    let ra = Arc::<T>::deserialize(&mut De { toks: t, pos: &p, calls: &c, fail_at: k });
+                    let ra = Arc::<T>::deserialize(&mut De { toks: t, pos: &p, calls: &c, fail_at: k, hr });
                     alloc::track(false);
                     calls_h = c.get();
                     match (&ra, &rv) {
@@ -389,7 +398,7 @@ fn de_case<T: for<'de> Deserialize<'de> + PartialEq + fmt::Debug>(name: &str, to
                 }
                 _ => {
                     let before = live_blocks();
-                    let ra = UniqueArc::<T>::deserialize(&mut De { toks: t, pos: &p, calls: &c, fail_at: k });
+                    let ra = UniqueArc::<T>::deserialize(&mut De { toks: t, pos: &p, calls: &c, fail_at: k, hr });
                     alloc::track(false);
                     calls_h = c.get();
                     match (&ra, &rv) {
@@ -421,9 +430,63 @@ fn de_case<T: for<'de> Deserialize<'de> + PartialEq + fmt::Debug>(name: &str, to
                     live_after = live_blocks() as i64 - before as i64;
                 }
             }
-            out.push(json!({"op": "de", "payload": name, "kind": kind, "k": k, "cut": cut, "ncalls": ncalls,
+            out.push(json!({"op": "de", "payload": name, "kind": kind, "k": k, "cut": cut, "ncalls": ncalls, "human_readable": hr as u8,
                             "agree": agree as u8, "ok": ok as u8, "value_equal": value_equal as u8, "count": count, "fresh": fresh as u8,
                             "live_after": live_after, "same_calls": (calls_h == calls_v) as u8}));
+            alloc::reset();
+        }
+    }
+}
+
+/// `Deserialize::deserialize_in_place(d, &mut handle)`: the handle ends up a fresh sole owner of the new value, or is
+/// left exactly as it was; another owner of the old value never sees anything change
+fn de_in_place_case<T: for<'de> Deserialize<'de> + PartialEq + Clone + fmt::Debug>(name: &str, old: &T, toks: &[Tok], out: &mut Vec<Value>) {
+    let (p0, c0) = (Cell::new(0), Cell::new(0));
+    let _ = T::deserialize(&mut De { toks, pos: &p0, calls: &c0, fail_at: 0, hr: true });
+    let ncalls = c0.get();
+    let mut inputs: Vec<(usize, usize)> = (0..=(ncalls + 1)).map(|k| (k, toks.len())).collect();
+    for cut in 0..toks.len() {
+        inputs.push((0, cut));
+    }
+    for others in [0usize, 1, 2] {
+        for (k, cut) in inputs.iter().cloned() {
+            let t = &toks[..cut];
+            let (p, c) = (Cell::new(0), Cell::new(0));
+            let rv = T::deserialize(&mut De { toks: t, pos: &p, calls: &c, fail_at: k, hr: true });
+            alloc::reset();
+            ev::LOG.clear();
+            let (p, c) = (Cell::new(0), Cell::new(0));
+            alloc::track(true);
+            let mut a = Arc::new(old.clone());
+            let keep: Vec<Arc<T>> = (0..others).map(|_| a.clone()).collect();
+            let old_heap = a.heap_ptr() as usize;
+            let before = live_blocks();
+            let r = <Arc<T> as Deserialize>::deserialize_in_place(&mut De { toks: t, pos: &p, calls: &c, fail_at: k, hr: true }, &mut a);
+            alloc::track(false);
+            let agree = match (&r, &rv) {
+                (Ok(()), Ok(_)) => true,
+                (Err(e1), Err(e2)) => e1 == e2,
+                _ => false,
+            };
+            let ok = r.is_ok();
+            let value_ok = match &rv {
+                Ok(v) if ok => *a == *v,
+                _ => *a == *old,
+            };
+            let others_intact = keep.iter().all(|h| **h == *old && h.heap_ptr() as usize == old_heap);
+            let count = Arc::count(&a);
+            let others_count = keep.first().map(|h| Arc::count(h)).unwrap_or(0);
+            let moved = a.heap_ptr() as usize != old_heap;
+            let live_delta = live_blocks() as i64 - before as i64;
+            alloc::track(true);
+            drop(r);
+            drop(a);
+            drop(keep);
+            alloc::track(false);
+            let left = live_blocks();
+            out.push(json!({"op": "de_in_place", "payload": name, "kind": "arc", "k": k, "cut": cut, "ncalls": ncalls, "others": others,
+                            "agree": agree as u8, "ok": ok as u8, "value_ok": value_ok as u8, "others_intact": others_intact as u8,
+                            "count": count, "others_count": others_count, "moved": moved as u8, "live_delta": live_delta, "left": left}));
             alloc::reset();
         }
     }
@@ -457,6 +520,10 @@ pub fn run(out_path: &str) {
     ot.extend(inner_t(2, "b"));
     de_case::<Outer>("Outer", &ot, &mut out);
     de_case::<Inner>("Inner", &inner_t(9, "z"), &mut out);
+    de_in_place_case::<u64>("u64", &5u64, &[U64(42)], &mut out);
+    de_in_place_case::<(u32, String)>("(u32,String)", &(1u32, String::from("old")), &[Seq(2), U64(5), Str("t".into())], &mut out);
+    de_in_place_case::<Inner>("Inner", &Inner { x: 100, s: "old".into() }, &inner_t(9, "z"), &mut out);
+    de_in_place_case::<Vec<u16>>("Vec<u16>", &vec![9u16], &[Seq(3), U64(1), U64(2), U64(3)], &mut out);
     use std::io::Write;
     let mut w = std::io::BufWriter::new(std::fs::File::create(out_path).unwrap());
     for l in &out {
